@@ -23,7 +23,7 @@ def gen_cases(ck):
     cases = ck.corpus_cases()
     n = 60 if ck.tier == "quick" else 400
     for i in range(n):
-        tissue = ["random", "jitter", "hex"][int(ck.rng.integers(3))]
+        tissue = ["random", "jitter", "hex", "quad"][int(ck.rng.integers(4))]
         near_axis = bool(ck.rng.integers(3) == 0)
         kr = [(1, 15), (0, 3), (3, 8), (0, 0)][int(ck.rng.integers(4))]
         cases.append({"type": "tissue", "seed": int(ck.rng.integers(1 << 30)), "tissue": tissue, "sites": int(ck.rng.integers(14, 34)),
@@ -33,12 +33,16 @@ def gen_cases(ck):
                       "angle": float(ck.rng.uniform(0, 2 * math.pi)), "near_axis": near_axis,
                       "scale": float(10.0 ** ck.rng.uniform(-2, 2)), "shift": [float(ck.rng.normal() * 3), float(ck.rng.normal() * 3)],
                       "p_rev": float(ck.rng.choice([0.0, 0.5])), "shifts": True, "relabel": bool(ck.rng.integers(2)),
-                      "fit": ["dlite", "taubinSVD"][int(ck.rng.integers(2))], "ignore_four": bool(ck.rng.integers(2))})
-    for i in range(8 if ck.tier == "quick" else 32):
-        cases.append({"type": "lattice", "seed": int(ck.rng.integers(1 << 30)), "tissue": ["brick", "square"][i % 2],
-                      "nx": int(ck.rng.integers(2, 5)), "ny": int(ck.rng.integers(2, 5)), "kmin": [0, 0, 2, 1][i % 4], "kmax": [0, 0, 2, 4][i % 4],
-                      "angle": [0.0, 0.0, math.pi / 2, 0.0][i % 4], "scale": [1.0, 0.5, 2.0, 4.0][i % 4], "shift": [0.0, 0.0],
-                      "fit": ["dlite", "taubinSVD"][i % 2], "ignore_four": bool((i // 2) % 2)})
+                      "fit": ["dlite", "taubinSVD"][int(ck.rng.integers(2))], "ignore_four": [None, False, True][int(ck.rng.integers(3))]})
+    lat = [(0, 0, 0.0, 1.0), (0, 0, math.pi / 2, 0.5), (2, 2, 0.0, 2.0), (1, 4, 0.0, 4.0)]
+    k = 0
+    for tissue in ("brick", "square"):
+        for kmin, kmax, angle, scale in (lat if ck.tier == "thorough" else lat[:3]):
+            for ig in (None, False, True):
+                cases.append({"type": "lattice", "seed": int(ck.rng.integers(1 << 30)), "tissue": tissue,
+                              "nx": int(ck.rng.integers(2, 5)), "ny": int(ck.rng.integers(2, 5)), "kmin": kmin, "kmax": kmax,
+                              "angle": angle, "scale": scale, "shift": [0.0, 0.0], "fit": ["dlite", "taubinSVD"][k % 2], "ignore_four": ig})
+                k += 1
     return cases
 
 
@@ -66,9 +70,10 @@ def run_case(ck, case, reqs, pending):
     if sc is None:
         ck.count("rejected_tissue")
         return
-    fit, ig = case.get("fit", "dlite"), case.get("ignore_four", False)
+    fit, ig_opt = case.get("fit", "dlite"), case.get("ignore_four", False)
+    ig = bool(ig_opt)           # None: the option is left out — the documented default keeps four-fold junctions
     try:
-        statics.solve_setup(sc, fit=fit, ignore_four=ig)
+        statics.solve_setup(sc, fit=fit, ignore_four=ig_opt)
     except Exception as ex:
         ck.fail("the force-balance system can be assembled", f"build_force_matrix raises {type(ex).__name__}: {ex}", case)
         ck.case(case)
@@ -142,13 +147,27 @@ def run_case(ck, case, reqs, pending):
                         ck.count("d2_mirrored_coefficients")
     ck.count("coeff_checked", len(rowmap) * len(used))
     ck.dist["worst_coeff_dev"] = max(ck.dist.get("worst_coeff_dev", 0.0), worst)
+    # ---------------- S: the same system again after the frame has served a build with a finite angle limit
+    try:
+        kw = {} if ig_opt is None else {"metadata": {"ignore_four": ig_opt}}
+        impl.quiet(sc.forsys.build_force_matrix, when=0, circle_fit_method=fit, angle_limit=0.7 * math.pi, **kw)
+        impl.quiet(sc.forsys.build_force_matrix, when=0, circle_fit_method=fit, **kw)
+        fm2 = sc.forsys.force_matrices[0]
+        M2 = np.array(fm2.matrix, dtype=float)
+        if [[int(x) for x in e] for e in fm2.big_edges_to_use] != used or M2.shape != M.shape or np.any(M2 != M) \
+                or {int(a): int(b) for a, b in fm2.map_vid_to_row.items()} != rowmap:
+            ck.fail("exactly one unknown per internal interface (every time the system is assembled on the frame)",
+                    f"after a build with angle_limit=0.7 pi the default build gives {M2.shape} instead of {M.shape}", case)
+        ck.count("reassembled_after_angle_limited_build")
+    except Exception as ex:
+        ck.fail("the force-balance system can be assembled again", f"{type(ex).__name__}: {str(ex)[:100]}", case)
     # ---------------- K
     reqs.append({"op": "fmatrix", "mesh": mesh_json(frame.vertices, frame.edges, frame.cells),
                  "centers": [[rat(x), rat(y)] for x, y in cs], "cos": None, "ignoreFour": ig})
     pending.append((case, earr, used, sorted(int(x) for x in fm.deletes), rowmap, M))
     ck.case(case, nontrivial=len(rowmap) > 0,
             sample=({"case": case, "unknowns": len(used), "junction_rows": len(rowmap), "interfaces": len(earr)} if len(ck.samples) < 3 else None))
-    ck.count("cases_" + case["type"]); ck.count("fit_" + fit); ck.count("ignore_four_" + str(ig))
+    ck.count("cases_" + case["type"]); ck.count("fit_" + fit); ck.count("ignore_four_" + str(ig_opt))
     ck.count("unknowns", len(used)); ck.count("kept_junctions", len(rowmap))
     ck.count("two_point_internal", sum(1 for u in used if len(u) == 2))
     ck.count("mobius" if sc.mob is not None else "straight")
